@@ -701,7 +701,16 @@ impl<'a> World<'a> {
                     }
                 }
                 Expect::Absent => {
-                    if got.is_some() {
+                    let refused_copy = match (&got, self.keys[key].refused_val) {
+                        (Some(r), Some(v)) => r.value == self.value_bytes(key, v),
+                        _ => false,
+                    };
+                    if refused_copy {
+                        // the store refused this value (full, farther than everything held) and still serves it from
+                        // its read cache: bytes handed in for this key, of a write that was never accepted - not a
+                        // removed key coming back (C01 says nothing about refused writes)
+                        self.rep.probe("refused_value_served_from_cache_at_quiescence");
+                    } else if got.is_some() {
                         self.viol(
                             "settled.removed_key_readable",
                             &[("shape", shape.into()), ("ctx", ctx.into())],
@@ -916,6 +925,7 @@ impl<'a> World<'a> {
             k.pending_writes.clear();
             k.pending_deletes = 0;
             k.race = None;
+            k.refused_val = None;
             if k.file == FileState::Blocked {
                 let p = self.root.join("record_store").join(hex::encode(&k.bytes));
                 let _ = std::fs::remove_dir(&p);
@@ -1131,8 +1141,24 @@ impl<'a> World<'a> {
                 self.rep.probe("put_scheduled_delete_of_its_own_file");
             }
         }
-        let evicted: Vec<usize> = evicted.into_iter().filter(|e| !(*e == key && !at_capacity)).collect();
+        let mut evicted: Vec<usize> = evicted.into_iter().filter(|e| !(*e == key && !at_capacity)).collect();
         self.note_store_gates(&fresh);
+        // what left the index is evicted, whether or not a delete task was spawned for it (the tasks are what the
+        // code did, the index is what the node now claims to hold)
+        if !quiet {
+            let after: BTreeSet<Vec<u8>> = self.node_store().verif_index().into_iter().map(|(k, _, _)| k.to_vec()).collect();
+            for i in 0..self.plan.n_keys {
+                if i != key && before_index.contains(&self.keys[i].bytes) && !after.contains(&self.keys[i].bytes) && !evicted.contains(&i) {
+                    evicted.push(i);
+                    self.rep.probe("evicted_from_index_without_delete_task");
+                    let on_disk = self.store_dir().join(hex::encode(&self.keys[i].bytes)).is_file();
+                    if on_disk && self.keys[i].pending_writes.is_empty() && self.keys[i].pending_deletes == 0 {
+                        // C02: a completed removal stays removed
+                        self.keys[i].gone_expected = true;
+                    }
+                }
+            }
+        }
         if !quiet {
             self.rep.log(format!(
                 "put k{key} v{val} -> {} wrote={wrote} evicted={evicted:?}",
@@ -1140,6 +1166,7 @@ impl<'a> World<'a> {
             ));
             self.rep.ops += 1;
         }
+        self.keys[key].refused_val = if res.is_err() { Some(val) } else { None };
         if res.is_ok() {
             self.keys[key].expect = Expect::Value(val);
             if !wrote && self.keys[key].failed_pending.contains(&val) {
@@ -1168,7 +1195,12 @@ impl<'a> World<'a> {
         }
         for e in &evicted {
             self.indexed[*e] = false;
-            self.keys[*e].expect = Expect::Absent;
+            if *e == key && res.is_ok() && wrote {
+                // the record being overwritten was itself the farthest: removed, then written again
+                self.rep.probe("overwritten_key_was_the_evicted_one");
+            } else {
+                self.keys[*e].expect = Expect::Absent;
+            }
             if !self.keys[*e].pending_writes.is_empty() || self.unacked[*e] > 0 {
                 self.keys[*e].race = Some("remove_while_write_in_flight");
             }
@@ -1238,6 +1270,7 @@ impl<'a> World<'a> {
             Step::Remove { key } => {
                 let key = *key % self.plan.n_keys;
                 let rk = self.rkeys[key].clone();
+                self.keys[key].refused_val = None;
                 self.driver().verif_store_mut().remove(&rk);
                 settle().await;
                 let fresh = self.absorb(Owner::Key(key));
